@@ -223,7 +223,7 @@ func (tr *Tr) oblige(fr *frame, kind, label, prop, reach, f string, pos token.Po
 }
 
 func (tr *Tr) obName(fr *frame, kind, label string) string {
-	base := shortFuncName(tr.vc.Fn) + "/" + fr.prefix + kind
+	base := shortFuncName(tr.vc.Fn) + variantSuffix(tr.vc.Contract) + "/" + fr.prefix + kind
 	if label != "" {
 		base += "#" + label
 		k := fr.kindCtr["L:"+kind+"#"+label]
